@@ -1,6 +1,4 @@
 """C05 -- incoming frames are reassembled exactly under any TCP chunking (v1-v4 + DSE headers)."""
-import ipaddress
-
 from hypothesis import strategies as st
 
 from checks import _conn as K
@@ -17,7 +15,9 @@ RULE = ("A case is 1-8 response frames (header version 1,2: 8-byte header / 3,4,
         "byte, body length from {0,1,2,7..10,4095..4097,8192,12288} or 0..12288 = 3 x in_buffer_size, body content random / "
         "repeating / zero / header-look-alike, handler registered or not = response to a timed-out request) or an EVENT frame "
         "(stream -1, hand-built STATUS_CHANGE / TOPOLOGY_CHANGE / SCHEMA_CHANGE body, watcher registered or not), optionally a "
-        "truncated last frame, and two cut lists built by construction: every-n-bytes (n=1 for streams up to a few hundred "
+        "truncated last frame, in one case of four a frame that kills the connection (response whose decoder raises / "
+        "undecodable EVENT body / unsupported version byte; usually with more frames behind it, often an EVENT with a "
+        "registered watcher), and two cut lists built by construction: every-n-bytes (n=1 for streams up to a few hundred "
         "bytes), cuts at +-2 around every frame start / body start / frame end, cuts strictly inside a chosen header, strictly "
         "inside a chosen body, runs of one-byte reads, absolute offsets.  The bytes are fed to a socket-less Connection exactly "
         "as the reactors do (_iobuf.write + process_io_buffer).  The enumeration part runs every single and double cut of "
@@ -28,6 +28,7 @@ ASSUMPTIONS = [
     "the socket is replaced by direct calls of _iobuf.write(chunk); process_io_buffer() -- the two statements every shipped reactor's handle_read executes; close() follows the reactors' contract",
     "data frames are observed through a recording decoder and callback registered in Connection._requests (the documented per-request hook of send_msg); EVENT frames go through the real ProtocolHandler.decode_message and watchers in _push_watchers",
     "a handler for a re-used stream id is registered from the callback of the previous response on that stream, as ResponseFuture callbacks do",
+    "after a frame that makes the connection defunct nothing more may be handed to handlers or watchers, also not frames that arrived in the same read (handlers being failed with ConnectionShutdown is expected and not compared)",
 ]
 LEVEL_TEXT = ("generated search plus exhaustive cut enumeration for the stated small streams; no claim for inputs outside "
               "the generated domain")
@@ -61,15 +62,22 @@ def _event_desc():
     return st.one_of(node, topo, schema)
 
 
-def _frame(v, lens):
-    data = st.fixed_dictionaries({
+def _data_frame(v, lens):
+    return st.fixed_dictionaries({
         "v": st.just(v), "stream": _stream_ids(v), "op": st.sampled_from(K.RESPONSE_OPCODES),
         "flags": st.sampled_from([0, 0, 1, 2, 4, 8, 0x0F, 0xFF]), "len": lens,
         "kind": st.sampled_from(["rand", "rep", "zero", "hdr"]), "seed": st.integers(0, 999),
         "reg": st.sampled_from([True, True, True, True, False])})
-    ev = st.fixed_dictionaries({"v": st.just(v), "stream": st.sampled_from([-1, -1, -1, -2, -128]),
-                                "event": _event_desc()})
-    return st.one_of(data, data, data, ev)
+
+
+def _event_frame(v):
+    return st.fixed_dictionaries({"v": st.just(v), "stream": st.sampled_from([-1, -1, -1, -2, -128]),
+                                  "event": _event_desc()})
+
+
+def _frame(v, lens):
+    data = _data_frame(v, lens)
+    return st.one_of(data, data, data, _event_frame(v))
 
 
 def _cut_items():
@@ -100,9 +108,23 @@ def s_stream(draw):
     for _ in range(n):
         fv = draw(st.sampled_from(VERSIONS)) if mixed else v
         frames.append(draw(_frame(fv, lens)))
-    return {"version": v, "frames": frames,
-            "watch": draw(st.lists(st.sampled_from(_EVENT_KINDS), unique=True, max_size=3)),
-            "trunc": draw(st.sampled_from([0, 0, 0, 1, 2, 9, 10])),
+    watch = draw(st.lists(st.sampled_from(_EVENT_KINDS), unique=True, max_size=3))
+    trunc = draw(st.sampled_from([0, 0, 0, 1, 2, 9, 10]))
+    # a frame that kills the connection (undecodable response / undecodable event / unsupported
+    # version byte), usually followed by more frames: nothing behind it may be delivered
+    poison = draw(st.sampled_from([None] * 9 + ["decode", "garbage", "version"]))
+    if poison is not None:
+        at = draw(st.integers(0, n - 1))
+        if poison == "garbage":
+            bad = dict(draw(_event_frame(v)), poison=poison)
+        else:
+            bad = dict(draw(_data_frame(v, lens)), poison=poison, reg=True)
+        frames[at] = bad
+        if draw(st.booleans()):
+            frames.insert(at + 1, draw(_event_frame(v)))
+            watch = list(_EVENT_KINDS)
+        trunc = 0
+    return {"version": v, "frames": frames, "watch": watch, "trunc": trunc,
             "cuts": draw(_cuts(small)), "cuts2": draw(_cuts(small))}
 
 
@@ -111,34 +133,31 @@ def s_stream(draw):
 # ---------------------------------------------------------------------------------------
 
 def _build(case):
-    """-> (stream bytes, meta list, expected history, watch set).  meta[i] = (start, body_start, end)."""
+    """-> (stream bytes, meta, expected history, watch set, deliver_ends, poison).
+    meta[i] = (start, body_start, end); deliver_ends = end offsets of the frames that produce the
+    entries of `expected`, in order; poison = None or {"index", "kind", "token", "end"} for the first
+    frame that kills the connection (nothing behind it is expected)."""
     watch = set(case.get("watch", []))
-    blobs, meta = [], []
+    blobs, meta, parts = [], [], []
     pos = 0
     tokens = {}          # stream id -> number of handlers that will ever be registered
     for f in case["frames"]:
         if "event" not in f and f.get("reg", True):
             tokens[f["stream"]] = tokens.get(f["stream"], 0) + 1
-    expected = []
-    used = {}
-    last_expected = False
-    for i, f in enumerate(case["frames"]):
+    for f in case["frames"]:
         v = f["v"]
-        n_before = len(expected)
         if "event" in f:
-            body, etype, exp = K.event_body(f["event"], v)
+            if f.get("poison") == "garbage":
+                body, etype, exp = K.garbage_event_body(f["event"]), f["event"]["type"], None
+            else:
+                body, etype, exp = K.event_body(f["event"], v)
             raw = K.frame(v, 0, f["stream"], K.OP_EVENT, body)
-            if etype in watch:
-                expected.append(("event", etype, _norm_event(exp)))
+            parts.append((etype, exp, body))
         else:
             body = K.body_bytes(f["kind"], f["len"], f["seed"], v)
-            raw = K.frame(v, f["flags"], f["stream"], f["op"], body)
-            s = f["stream"]
-            if used.get(s, 0) < tokens.get(s, 0):
-                # handler number used[s] of stream s receives it
-                expected.append(("resp", s, used.get(s, 0), v, s, f["flags"], f["op"], body))
-                used[s] = used.get(s, 0) + 1
-        last_expected = len(expected) > n_before
+            wire_v = 9 if f.get("poison") == "version" else v       # 9: not a protocol version the driver knows
+            raw = K.frame(wire_v, f["flags"], f["stream"], f["op"], body)
+            parts.append((None, None, body))
         hl = K.frame_header_len(v)
         meta.append((pos, pos + hl, pos + len(raw)))
         blobs.append(raw)
@@ -146,26 +165,41 @@ def _build(case):
     data = b"".join(blobs)
     trunc = case.get("trunc", 0)
     if trunc and blobs:
-        trunc = min(trunc, len(blobs[-1]))
-        data = data[:len(data) - trunc]
-        if trunc and last_expected:
-            expected.pop()          # the incomplete last frame must not be delivered
-    return data, meta, expected, watch
+        data = data[:len(data) - min(trunc, len(blobs[-1]))]
+    total = len(data)
 
-
-def _norm_event(args):
-    out = {}
-    for k, val in args.items():
-        if k == "address":
-            a, port = val
-            if isinstance(a, (bytes, bytearray)):
-                ip = ipaddress.ip_address(bytes(a))
-            else:
-                ip = ipaddress.ip_address(a)
-            out[k] = (ip.packed.hex(), port)
+    expected, deliver_ends, used, poison = [], [], {}, None
+    for i, f in enumerate(case["frames"]):
+        s0, b0, e0 = meta[i]
+        kind = f.get("poison")
+        if kind == "version" and s0 < total:
+            poison = {"index": i, "kind": kind, "token": None, "end": s0 + 1}
+            break
+        if e0 > total:
+            break               # the incomplete last frame must not be delivered
+        etype, exp, body = parts[i]
+        if "event" in f:
+            if kind == "garbage":
+                poison = {"index": i, "kind": kind, "token": None, "end": e0}
+                break
+            if etype in watch:
+                expected.append(("event", etype, _norm_event(exp)))
+                deliver_ends.append(e0)
         else:
-            out[k] = val
-    return tuple(sorted(out.items()))
+            s = f["stream"]
+            k = used.get(s, 0)
+            if k < tokens.get(s, 0):
+                used[s] = k + 1
+                if kind == "decode":
+                    poison = {"index": i, "kind": kind, "token": (s, k), "end": e0}
+                    break
+                # handler number k of stream s receives it
+                expected.append(("resp", s, k, f["v"], s, f["flags"], f["op"], body))
+                deliver_ends.append(e0)
+    return data, meta, expected, watch, deliver_ends, poison
+
+
+_norm_event = K.norm_event
 
 
 def _resolve(case_cuts, total, meta):
@@ -194,12 +228,18 @@ def _resolve(case_cuts, total, meta):
 # one run of the real connection
 # ---------------------------------------------------------------------------------------
 
-def _run(case, data, meta, watch, cuts, ctx, tag):
-    """Feed `data` cut at `cuts`; returns (history, problems) -- history entries as in `expected`."""
+class _Undecodable(Exception):
+    pass
+
+
+def _run(case, data, meta, watch, cuts, deliver_ends, poison, ctx, tag):
+    """Feed `data` cut at `cuts`; returns (history, after_defunct, problems).  History entries as in
+    `expected` plus ("error", stream, k, ExcName) for handlers that were failed; after_defunct
+    lists the responses/events handed over although the connection was already defunct."""
     hist = []
+    after_defunct = []
     pos = [0]
     early = []
-    ends = [m[2] for m in meta]
     conn = K.make_conn(case["version"])
     conn.step_budget = 4 * (len(cuts) + 1 + len(meta)) + 64
     queues = {}
@@ -207,28 +247,36 @@ def _run(case, data, meta, watch, cuts, ctx, tag):
         if "event" not in f and f.get("reg", True):
             queues[f["stream"]] = queues.get(f["stream"], 0) + 1
     nth = {}
+    poison_token = poison["token"] if poison else None
 
     def decoder(version, user_type_map, stream_id, flags, opcode, body, decompressor, result_metadata):
         return ("decoded", version, stream_id, flags, opcode, bytes(body), result_metadata)
+
+    def bad_decoder(*args):
+        raise _Undecodable("response body cannot be decoded")
 
     def register(s):
         k = nth.get(s, 0)
         if k >= queues.get(s, 0):
             return
         nth[s] = k + 1
-        conn._requests[s] = (make_cb(s, k), decoder, ("meta", s, k))
+        conn._requests[s] = (make_cb(s, k), bad_decoder if (s, k) == poison_token else decoder, ("meta", s, k))
 
     def make_cb(s, k):
         def cb(response):
             try:
                 if isinstance(response, tuple) and response and response[0] == "decoded":
                     _, version, stream_id, flags, opcode, body, rm = response
-                    hist.append(("resp", s, k, version, stream_id, flags, opcode, body))
-                    if rm != ("meta", s, k):
-                        hist.append(("bad-result-metadata", s, k, repr(rm)))
+                    entry = ("resp", s, k, version, stream_id, flags, opcode, body)
+                    if conn.is_defunct:
+                        after_defunct.append(entry)
+                    else:
+                        hist.append(entry)
+                        early.append(pos[0])
+                        if rm != ("meta", s, k):
+                            hist.append(("bad-result-metadata", s, k, repr(rm)))
                 else:
                     hist.append(("error", s, k, type(response).__name__))
-                early.append(pos[0])
                 register(s)
             except Exception as e:  # never let the driver swallow a harness problem silently
                 hist.append(("harness-exception", repr(e)))
@@ -237,8 +285,12 @@ def _run(case, data, meta, watch, cuts, ctx, tag):
     def make_watcher(etype):
         def w(args):
             try:
-                hist.append(("event", etype, _norm_event(args)))
-                early.append(pos[0])
+                entry = ("event", etype, _norm_event(args))
+                if conn.is_defunct:
+                    after_defunct.append(entry)
+                else:
+                    hist.append(entry)
+                    early.append(pos[0])
             except Exception as e:
                 hist.append(("harness-exception", repr(e)))
         return w
@@ -249,28 +301,17 @@ def _run(case, data, meta, watch, cuts, ctx, tag):
         conn._push_watchers[etype].add(make_watcher(etype))
 
     late = []
-    # which frames produce a history entry, in order (to judge promptness)
-    deliver_ends = []
-    seen = {}
-    for i, f in enumerate(case["frames"]):
-        if meta[i][2] > len(data):
-            continue
-        if "event" in f:
-            if f["event"]["type"] in watch:
-                deliver_ends.append(meta[i][2])
-        else:
-            s = f["stream"]
-            if seen.get(s, 0) < queues.get(s, 0):
-                seen[s] = seen.get(s, 0) + 1
-                deliver_ends.append(meta[i][2])
 
     def after(fed):
+        if late or conn.is_defunct:
+            return
         due = 0
         for e in deliver_ends:
             if e <= fed:
                 due += 1
-        if len(hist) < due and not late:
-            late.append((fed, len(hist), due))
+        got = sum(1 for h in hist if h[0] != "error")
+        if got < due:
+            late.append((fed, got, due))
 
     with ctx.driver(["C05.feed", tag]):
         K.feed(conn, data, cuts, on_chunk=after, pos=pos)
@@ -284,7 +325,9 @@ def _run(case, data, meta, watch, cuts, ctx, tag):
             break
     if late:
         problems.append((["C05.late"], "after %d bytes were fed %d frame(s) had been delivered, %d were complete" % late[0]))
-    if conn.is_defunct or conn.is_closed:
+    if poison is not None:
+        pass        # the connection is expected to die at the poison frame; judged by the history
+    elif conn.is_defunct or conn.is_closed:
         problems.append((["C05.defunct", type(conn.last_error).__name__],
                          "connection defunct/closed after a valid stream: %r" % (conn.last_error,)))
     else:
@@ -295,7 +338,7 @@ def _run(case, data, meta, watch, cuts, ctx, tag):
                 len(rest), len(data) - complete_end)))
         if complete_end == len(data) and conn._current_frame is not None:
             problems.append((["C05.residue", "current_frame"], "_current_frame still set after the last complete frame"))
-    return hist, problems
+    return hist, after_defunct, problems
 
 
 def _diff_kind(got, exp):
@@ -324,7 +367,7 @@ def _short(entry):
 
 
 def interpret(case, ctx):
-    data, meta, expected, watch = _build(case)
+    data, meta, expected, watch, deliver_ends, poison = _build(case)
     total = len(data)
     hdr = "hdr8" if all(f["v"] < 3 for f in case["frames"]) else (
         "hdr9" if all(f["v"] >= 3 for f in case["frames"]) else "mixed")
@@ -334,7 +377,14 @@ def interpret(case, ctx):
         runs.append(("cuts2", _resolve(case["cuts2"], total, meta)))
     histories = []
     for tag, cl in runs:
-        hist, problems = _run(case, data, meta, watch, cl, ctx, tag)
+        hist, after_defunct, problems = _run(case, data, meta, watch, cl, deliver_ends, poison, ctx, tag)
+        if after_defunct:
+            ctx.fail(["C05.after-defunct", hdr],
+                     "[%s] %d response(s)/event(s) were handed to handlers/watchers after the connection had become "
+                     "defunct, first: %r" % (tag, len(after_defunct), _short(after_defunct[0])))
+        if poison is not None:
+            # handlers that were failed when the connection died are not part of the comparison
+            hist = [h for h in hist if h[0] != "error"]
         histories.append(hist)
         for key, msg in problems:
             ctx.fail(key + ([hdr] if key[0] in ("C05.early", "C05.late") else []), "[%s] %s" % (tag, msg))
@@ -377,6 +427,12 @@ def interpret(case, ctx):
         ctx.label("empty-body")
     if case.get("trunc"):
         ctx.label("truncated-tail")
+    if poison is not None:
+        ctx.label("poison:" + poison["kind"])
+        nxt = [c for c in cuts if c >= poison["end"]]
+        read_end = nxt[0] if nxt else total
+        if any(m[2] <= read_end for m in meta[poison["index"] + 1:]):
+            ctx.label("complete-frame-behind-poison-in-same-read")
     streams = [f["stream"] for f in case["frames"] if "event" not in f]
     if len(set(streams)) < len(streams):
         ctx.label("stream-id-reused")
